@@ -24,6 +24,7 @@ type ssoP struct {
 	IdPFlag   string // WantAuthRequestsSigned: "" | false | 0 | true | 1
 	IssuerCfg string // "" static | static-path | host | host-path
 	SSOEp     string // "" default | custom | custom-noslash | external
+	MetaEp    string // metadata endpoint: "" default | external (fixed absolute URL: the entity ID no longer depends on the issuer)
 	Host      string // request Host ("" = idp.example)
 	ACS       string // ACS list shape of SP A (see ssoACSLists)
 	Persist   string // CreateAuthRequest answer: "" ok | error | empty-id | error-ctx-deadline | error-ctx-canceled
@@ -76,6 +77,12 @@ var ssoACSLists = map[string][]msg.ACS{
 	"artifact-only": {{msg.BindArtifact, "https://sp-a.example/acs/artifact", "0", ""}},
 	"paos-only":     {{msg.BindPAOS, "https://sp-a.example/acs/paos", "0", ""}},
 	"unknown-only":  {{"urn:unknown:binding", "https://sp-a.example/acs/unknown", "0", ""}},
+	// every other binding URI SAML 2.0 names (a change that half-supports one of them must not slip through)
+	"simplesign-only": {{msg.BindSimpleSign, "https://sp-a.example/acs/simplesign", "0", ""}},
+	"soap-only":       {{msg.BindSOAP, "https://sp-a.example/acs/soap", "0", ""}},
+	"uri-only":        {{msg.BindURI, "https://sp-a.example/acs/uri", "0", ""}},
+	"simplesign-default+post": {{msg.BindSimpleSign, "https://sp-a.example/acs/simplesign", "0", "true"}, {msg.BindPost, "https://sp-a.example/acs/post", "1", ""}},
+	"post+simplesign": {{msg.BindPost, "https://sp-a.example/acs/post", "0", ""}, {msg.BindSimpleSign, "https://sp-a.example/acs/simplesign", "1", ""}},
 	"artifact-default+post": {{msg.BindArtifact, "https://sp-a.example/acs/artifact", "0", "true"}, {msg.BindPost, "https://sp-a.example/acs/post", "1", ""}},
 	"post+artifact-lowest":  {{msg.BindPost, "https://sp-a.example/acs/post", "5", ""}, {msg.BindArtifact, "https://sp-a.example/acs/artifact", "1", ""}},
 	"none":          {},
@@ -166,6 +173,9 @@ func (p ssoP) config() world.Config {
 	case "host-path":
 		c.IssuerMode, c.HostPath = "host", "saml"
 	}
+	if p.MetaEp == "external" {
+		c.Metadata = &world.EP{Path: "/metadata", URL: "https://meta.example/idp/metadata"}
+	}
 	switch p.SSOEp {
 	case "custom":
 		c.SSO = &world.EP{Path: "/custom/sso"}
@@ -176,6 +186,9 @@ func (p ssoP) config() world.Config {
 	}
 	return c
 }
+
+// ssoOtherHost: a second host name the same provider is reached under (two-host histories).
+const ssoOtherHost = "first-tenant.example"
 
 func boolTrue(s string) bool { return s == "true" || s == "1" }
 
@@ -283,10 +296,14 @@ func ssoBuild(p ssoP) (*world.World, *http.Request, *ssoTruth) {
 		o.Destination = adv + "/"
 	case "slo-endpoint":
 		o.Destination = cfg.SLOLocation(host)
+	case "other-host":
+		// the SSO location the IdP advertises to clients of ANOTHER host name (equal to ours unless the issuer is host-derived)
+		o.Destination = cfg.SSOLocation(ssoOtherHost)
+		t.DestAdvertised = o.Destination == adv
 	default:
 		panic("ssoBuild: Dest " + p.Dest)
 	}
-	if p.Dest != "" && p.Dest != "absent" {
+	if p.Dest != "" && p.Dest != "absent" && !t.DestAdvertised {
 		t.Conformant = false
 		t.ForeignURLs = append(t.ForeignURLs, o.Destination)
 	}
@@ -330,6 +347,10 @@ func ssoBuild(p ssoP) (*world.World, *http.Request, *ssoTruth) {
 		o.ProtocolBinding = msg.BindArtifact
 	case "paos":
 		o.ProtocolBinding = msg.BindPAOS
+	case "simplesign":
+		o.ProtocolBinding = msg.BindSimpleSign
+	case "soap":
+		o.ProtocolBinding = msg.BindSOAP
 	case "junk":
 		o.ProtocolBinding = "urn:junk"
 	}
@@ -711,6 +732,8 @@ func (p *ssoP) set(name, val string) {
 		p.IdPFlag = val
 	case "IssuerCfg":
 		p.IssuerCfg = val
+	case "MetaEp":
+		p.MetaEp = val
 	case "SSOEp":
 		p.SSOEp = val
 	case "Host":
